@@ -151,9 +151,28 @@ def check_script(script, source, emit, case, run_kw=None):
                 if d:
                     problems.append(("run-results-differ", d))
     if problems:
-        emit({"v": "viol", "b": bucket, "mech": "prettify/" + problems[0][0], "what": f"{script[:240]!r} -> {p[:240]!r}: {problems[:2]}", "case": case})
+        emit({"v": "viol", "b": bucket, "mech": "prettify/" + refine(problems[0], script), "what": f"{script[:240]!r} -> {p[:240]!r}: {problems[:2]}", "case": case})
     else:
         emit({"v": "held", "b": bucket, "sample": {"source": source, "script": script[:160], "prettified": p[:160]}})
+
+
+def refine(problem, script):
+    """mechanism key = symptom + the construct it sits in (so that one known rendering defect does not hide another)"""
+    import re
+    kind, detail = problem
+    if kind == "ast-differs":
+        classes = re.findall(r"\.([A-Z][A-Za-z]+)\[", detail)
+        return f"ast-differs/{classes[0] if classes else 'Start'}/{classes[-1] if classes else ''}"
+    if kind == "output-does-not-parse":
+        m = re.search(r"(?:mismatched|extraneous) input '([^']*)'|no viable alternative at input '([^']*)'|token recognition error at: '([^']*)'", detail)
+        tok = next((g for g in (m.groups() if m else ()) if g), "?")
+        return f"output-does-not-parse/at:{tok[:20]}"
+    if kind in ("run-results-differ", "prettified-script-fails-to-run", "not-idempotent"):
+        constructs = [k for k, pat in (("hruleset-code-item-condition", r"hierarchical ruleset[\s\S]*\[[^\]]*(>=|<=|=|>|<)"), ("hruleset", r"hierarchical ruleset"),
+                                       ("dpruleset", r"datapoint ruleset"), ("operator", r"define operator"), ("viral", r"viral propagation"),
+                                       ("join", r"_join"), ("analytic", r"\bover\s*\("), ("aggr", r"\baggr\b|group by|group except")) if re.search(pat, script)]
+        return f"{kind}/{constructs[0] if constructs else 'plain'}"
+    return kind
 
 
 def _textdiff(a, b):
